@@ -506,7 +506,11 @@ FAULTS = {
     "blockMissing": (["{% block %}x\n\ny\n{% end %}", "{% block %}{% end %}"], "any"),
     "extraEnd": (["{% end %}", "{% end if %}", "{%end\n%}"], "top"),
     "interOutside": (["{% else %}", "{% elif sx %}", "{% except %}", "{% finally %}"], "top"),
-    "breakOutside": (["{% break %}", "{% continue %}", "{% if sx %}{% break %}{% end %}", "{% apply up %}{% continue %}{% end %}"], "top"),
+    "breakOutside": (["{% break %}", "{% continue %}", "{% if sx %}{% break %}{% end %}", "{% apply up %}{% continue %}{% end %}",
+                      # the else clause of a loop is not in the loop (fix/hC19)
+                      "{% for q in l3 %}a\n{% else %}\n{% break %}{% end %}", "{% while f0 %}{% else %}b{% continue %}\n{% end %}",
+                      "{% for q in l3 %}{% else %}{% if sx %}\n{% break %}{% end %}{% end %}",
+                      "{% for q in l3 %}{% for r in li %}{% end %}{% else %}{% try %}{% finally %}{% continue %}{% end %}{% end %}"], "top"),
     "interNotAttachable": (["{% for q in l3 %}{% elif sx %}{% end %}", "{% if sx %}{% except %}{% end %}", "{% apply up %}{% else %}{% end %}",
                             "{% block b9 %}\n{% else %}{% end %}", "{% while f0 %}{% finally %}{% end %}", "{% try %}{% elif sx %}{% end %}"], "any"),
     "missingEndExpr": (["{{ sx", "{{", "{{ sx }", "{{ sx %}"], "eof"),
@@ -516,6 +520,11 @@ FAULTS = {
 }
 # offset (in lines) inside the fault text at which the offending directive ends, for multi-directive faults
 _FAULT_SPAN = {
+    "{% for q in l3 %}a\n{% else %}\n{% break %}{% end %}": ("{% for q in l3 %}a\n{% else %}\n", "{% break %}"),
+    "{% while f0 %}{% else %}b{% continue %}\n{% end %}": ("{% while f0 %}{% else %}b", "{% continue %}"),
+    "{% for q in l3 %}{% else %}{% if sx %}\n{% break %}{% end %}{% end %}": ("{% for q in l3 %}{% else %}{% if sx %}\n", "{% break %}"),
+    "{% for q in l3 %}{% for r in li %}{% end %}{% else %}{% try %}{% finally %}{% continue %}{% end %}{% end %}":
+        ("{% for q in l3 %}{% for r in li %}{% end %}{% else %}{% try %}{% finally %}", "{% continue %}"),
     "{% if sx %}{% break %}{% end %}": ("{% if sx %}", "{% break %}"),
     "{% apply up %}{% continue %}{% end %}": ("{% apply up %}", "{% continue %}"),
     "{% for q in l3 %}{% elif sx %}{% end %}": ("{% for q in l3 %}", "{% elif sx %}"),
@@ -676,6 +685,9 @@ def loop_block_cases():
                 # E: the parent's block has the statement, the child overrides it with text
                 yield case([["p.html", "a" + lo + "[{% block b1 %}p" + stmt + "r{% end %}]" + le + "c"],
                             ["e.html", "{% extends \"p.html\" %}{% block b1 %}child{% end %}"]], "e.html")
+                # G: in the else clause of an inner loop the statement belongs to the outer loop
+                yield case([["e.html", "a" + lo + "[{% for q in li %}x{% else %}e" + stmt + "f{% end %}]" + le + "c"]], "e.html")
+                yield case([["e.html", "a" + lo + "[{% set u = f0 %}{% while u %}x{% else %}e" + stmt + "f{% end %}]" + le + "c"]], "e.html")
                 # F: inside `finally` (with and without an exception on its way)
                 for boom in ("", "{{ boom }}"):
                     yield case([["e.html", "a" + lo + "{% try %}t" + boom + "{% finally %}f" + stmt + "g{% end %}z" + le + "c"]], "e.html")
